@@ -6,7 +6,7 @@
 (* subset). "@...@" strings are file-system placeholders the harness fills in.    *)
 EXTENDS Malformed, Json
 
-CONSTANTS Families      \* subset of {"jsonschema","openapi","cue","pipeline","passes","veneers","sequences","parameters"} to emit
+CONSTANTS Families      \* subset of {"jsonschema","openapi","cue","pipeline","passes","veneers","sequences","parameters","cycles","cyclepasses","cycleveneers","veneerpaths","ifexpr","discriminators"} to emit
 
 VARIABLES fam, base, m
 vars == <<fam, base, m>>
@@ -145,6 +145,7 @@ ConfigAlphabet == <<S("x"), S(""), JInt(1), JInt(-1), JBool(TRUE), JBool(FALSE),
 
 \* ---- schema transformations: one well-formed pass per file, over the package cfgt (= the jsonschema base document)
 StrType == O(<<P("kind", S("scalar")), P("scalar", O(<<P("scalar_kind", S("string"))>>))>>)
+IntType == O(<<P("kind", S("scalar")), P("scalar", O(<<P("scalar_kind", S("int64"))>>))>>)
 StructType(fs) == O(<<P("kind", S("struct")), P("struct", O(<<P("fields", A(fs))>>))>>)
 FieldT(n, t) == O(<<P("name", S(n)), P("type", t), Flag("required", TRUE)>>)
 Pass(k, body) == O(<<P("passes", A(<<O(<<P(k, body)>>)>>))>>)
@@ -212,6 +213,19 @@ VeneerBases == <<
   Veneer("options", "disjunction_as_options", O(<<ByOpt("Root.u"), P("argument_index", JInt(0))>>)),
   Veneer("options", "duplicate", O(<<ByOpt("Root.name"), P("as", S("nameAgain"))>>)),
   Veneer("options", "add_comments", O(<<ByOpt("Root.name"), P("comments", A(<<S("c")>>))>>)),
+  Veneer("builders", "add_option", O(<<ByObj("Root"), P("option", O(<<P("name", S("withName")), P("comments", A(<<S("c")>>)),
+      P("arguments", A(<<O(<<P("name", S("n")), P("type", StrType)>>)>>)),
+      P("assignments", A(<<O(<<P("path", S("name")), P("method", S("direct")), P("value", O(<<P("argument", O(<<P("name", S("n")), P("type", StrType)>>))>>))>>)>>))>>))>>)),
+  Veneer("builders", "add_option", O(<<ByObj("Root"), P("option", O(<<P("name", S("child")), P("arguments", A(<<O(<<P("name", S("id")), P("type", IntType)>>)>>)),
+      P("assignments", A(<<O(<<P("path", S("alias")), P("method", S("direct")), P("value", O(<<P("envelope", O(<<P("values", A(<<
+          O(<<P("field", S("cid")), P("value", O(<<P("argument", O(<<P("name", S("id")), P("type", IntType)>>))>>))>>)>>))>>))>>))>>)>>))>>))>>)),
+  Veneer("builders", "add_option", O(<<ByObj("Root"), P("option", O(<<P("name", S("fixed")), P("arguments", A(<<>>)),
+      P("assignments", A(<<O(<<P("path", S("on")), P("method", S("direct")), P("value", O(<<P("constant", JBool(TRUE))>>))>>),
+                           O(<<P("path", S("tags")), P("method", S("append")), P("value", O(<<P("constant", S("t"))>>))>>)>>))>>))>>)),
+  Veneer("builders", "add_factory", O(<<ByObj("Root"), P("factory", O(<<P("name", S("Small")), P("arguments", A(<<O(<<P("name", S("n")), P("type", StrType)>>)>>)),
+      P("options", A(<<O(<<P("name", S("name")), P("parameters", A(<<O(<<P("argument", O(<<P("name", S("n")), P("type", StrType)>>))>>)>>))>>)>>))>>))>>)),
+  Veneer("options", "add_assignment", O(<<ByOpt("Root.name"), P("assignment", O(<<P("path", S("alias")), P("method", S("direct")),
+      P("value", O(<<P("envelope", O(<<P("values", A(<<O(<<P("field", S("cid")), P("value", O(<<P("constant", JInt(1))>>))>>)>>))>>))>>))>>))>>)),
   Veneer("options", "omit", O(<<P("by_builder", S("Root.on"))>>)),
   Veneer("options", "omit", O(<<P("by_names", O(<<P("object", S("Root")), P("options", A(<<S("on"), S("name")>>))>>))>>))
 >>
@@ -256,6 +270,96 @@ ParamDoc(pv, qv, u) == O(<<
                   P("templates_data", O(<<P("k", S(ParamUses[u]))>>)),
                   P("languages", A(<<O(<<P("go", O(<<P("package_root", S("genmod/" \o ParamUses[u]))>>))>>)>>))>>))>>)
 
+(* ---- reference cycles, generically: n objects N1 -> N2 -> ... -> N1, every link of one kind, reached from Root in one way.   *)
+(* The harness renders each abstract cycle in EVERY input language (CUE as definitions and as plain fields, JSON Schema,         *)
+(* OpenAPI). "alias" links (an object that IS a reference) never reach a type; the other link kinds are recursive structures,    *)
+(* some legitimate (optional field, array, map), some without a base case (required field, allOf, embedding).                    *)
+CycleLens    == 1..3
+CycleLinks   == <<"alias", "field", "optional-field", "items", "map-values", "allOf", "oneOf-branch", "nullable", "default", "alias-then-field">>
+CycleEntries == <<"root-field", "root-optional-field", "root-array", "root-alias", "unreferenced">>
+CycleLangs   == <<"cue-definitions", "cue-fields", "jsonschema", "openapi">>
+
+(* ---- cycles CREATED by configuration: schema transformations whose result closes a reference cycle, builder rules that merge / *)
+(* compose / duplicate builders into each other. Base package cfgt: Alias is a reference to Child.                                *)
+RefTo(n) == O(<<P("kind", S("ref")), P("ref", O(<<P("referred_pkg", S("cfgt")), P("referred_type", S(n))>>))>>)
+Passes2(ps) == O(<<P("passes", A(ps))>>)
+PS(k, body) == O(<<P(k, body)>>)
+CyclePassDocs == <<
+  Passes2(<<PS("replace_reference", O(<<P("from", S("cfgt.Child")), P("to", S("cfgt.Alias"))>>))>>),          \* Alias: ref Child becomes ref Alias
+  Passes2(<<PS("retype_object", O(<<P("object", S("cfgt.Child")), P("as", RefTo("Alias"))>>))>>),               \* Child -> Alias -> Child
+  Passes2(<<PS("retype_object", O(<<P("object", S("cfgt.Alias")), P("as", RefTo("Alias"))>>))>>),               \* Alias -> Alias
+  Passes2(<<PS("retype_object", O(<<P("object", S("cfgt.Root")), P("as", RefTo("Root"))>>))>>),                 \* the entry point itself
+  Passes2(<<PS("add_object", O(<<P("object", S("cfgt.Loop")), P("as", RefTo("Loop"))>>))>>),
+  Passes2(<<PS("add_object", O(<<P("object", S("cfgt.LoopA")), P("as", RefTo("LoopB"))>>)),
+            PS("add_object", O(<<P("object", S("cfgt.LoopB")), P("as", RefTo("LoopA"))>>))>>),
+  Passes2(<<PS("add_object", O(<<P("object", S("cfgt.LoopA")), P("as", RefTo("LoopB"))>>)),
+            PS("add_object", O(<<P("object", S("cfgt.LoopB")), P("as", RefTo("LoopC"))>>)),
+            PS("add_object", O(<<P("object", S("cfgt.LoopC")), P("as", RefTo("LoopA"))>>))>>),
+  Passes2(<<PS("add_object", O(<<P("object", S("cfgt.Loop")), P("as", RefTo("Loop"))>>)),
+            PS("retype_field", O(<<P("field", S("cfgt.Root.name")), P("as", RefTo("Loop"))>>))>>),               \* reached through a struct field only
+  Passes2(<<PS("retype_field", O(<<P("field", S("cfgt.Child.cid")), P("as", RefTo("Child"))>>))>>),             \* required field of its own type
+  Passes2(<<PS("add_fields", O(<<P("to", S("cfgt.Child")), P("fields", A(<<FieldT("self", RefTo("Child"))>>))>>))>>),
+  Passes2(<<PS("add_object", O(<<P("object", S("cfgt.Dangling")), P("as", RefTo("Nowhere"))>>)),
+            PS("retype_field", O(<<P("field", S("cfgt.Root.name")), P("as", RefTo("Dangling"))>>))>>),           \* alias chain that ends nowhere
+  Passes2(<<PS("rename_object", O(<<P("from", S("cfgt.Child")), P("to", S("Alias"))>>))>>),                    \* renaming onto its own alias
+  Passes2(<<PS("duplicate_object", O(<<P("object", S("cfgt.Alias")), P("as", S("cfgt.Child"))>>))>>),
+  Passes2(<<PS("retype_object", O(<<P("object", S("cfgt.Color")), P("as", O(<<P("kind", S("array")), P("array", O(<<P("value_type", RefTo("Color"))>>))>>))>>))>>),
+  Passes2(<<PS("retype_object", O(<<P("object", S("cfgt.Alias")), P("as", O(<<P("kind", S("disjunction")),
+            P("disjunction", O(<<P("branches", A(<<RefTo("Alias"), StrType>>))>>))>>))>>))>>)
+>>
+VeneerDoc(bs, os) == O(<<P("language", S("all")), P("package", S("cfgt")), P("builders", A(bs)), P("options", A(os))>>)
+Merge(dst, src, under) == PS("merge_into", O(<<P("destination", S(dst)), P("source", S(src)), P("under_path", S(under))>>))
+CycleVeneerDocs == <<
+  VeneerDoc(<<Merge("Root", "Root", "next")>>, <<>>),                                                             \* a builder merged into itself
+  VeneerDoc(<<Merge("Root", "Child", "alias"), Merge("Child", "Root", "cid")>>, <<>>),                             \* A into B, B into A
+  VeneerDoc(<<Merge("Child", "Root", "cid")>>, <<>>),
+  VeneerDoc(<<Merge("Root", "Root", "")>>, <<>>),
+  VeneerDoc(<<PS("duplicate", O(<<ByObj("Root"), P("as", S("Root"))>>))>>, <<>>),                                  \* duplicate onto itself
+  VeneerDoc(<<PS("duplicate", O(<<ByObj("Root"), P("as", S("Child"))>>))>>, <<>>),
+  VeneerDoc(<<PS("rename", O(<<ByObj("Root"), P("as", S("Child"))>>)), PS("rename", O(<<ByObj("Child"), P("as", S("Root"))>>))>>, <<>>),
+  VeneerDoc(<<PS("compose", O(<<ByObj("Root"), P("source_builder_name", S("Root")), P("plugin_discriminator_field", S("name")),
+                                P("composition_map", O(<<P("__schema_entrypoint", S("next"))>>)), P("composed_builder_name", S("Root"))>>))>>, <<>>),
+  VeneerDoc(<<PS("compose", O(<<ByObj("Child"), P("source_builder_name", S("Root")), P("plugin_discriminator_field", S("kind")),
+                                P("composition_map", O(<<P("cid", S("next"))>>)), Flag("preserve_original_builders", TRUE)>>)),
+              PS("compose", O(<<ByObj("Root"), P("source_builder_name", S("Child")), P("plugin_discriminator_field", S("kind")),
+                                P("composition_map", O(<<P("next", S("cid"))>>))>>))>>, <<>>),
+  VeneerDoc(<<PS("initialize", O(<<ByObj("Root"), P("set", A(<<O(<<P("property", S("next.next.next")), P("value", S("x"))>>)>>))>>))>>, <<>>),
+  VeneerDoc(<<PS("promote_options_to_constructor", O(<<ByObj("Root"), P("options", A(<<S("next"), S("next")>>))>>))>>, <<>>),
+  VeneerDoc(<<>>, <<PS("struct_fields_as_options", O(<<ByOpt("Root.next")>>)), PS("struct_fields_as_arguments", O(<<ByOpt("Root.next")>>))>>),
+  VeneerDoc(<<>>, <<PS("struct_fields_as_arguments", O(<<ByOpt("Root.next")>>)), PS("struct_fields_as_arguments", O(<<ByOpt("Root.next")>>))>>),
+  VeneerDoc(<<>>, <<PS("duplicate", O(<<ByOpt("Root.name"), P("as", S("name"))>>))>>)
+>>
+
+(* ---- every rule parameter that is a path / property / field / option name x degenerate spellings (dense: run in every tier) *)
+PathKeys     == {"under_path", "property", "path", "field", "fields", "options", "exclude_options", "source", "destination", "source_builder_name",
+                 "plugin_discriminator_field", "composition_map", "rename_options", "by_name", "by_object", "by_builder", "as", "name"}
+PathAlphabet == <<S(""), S(" "), S("."), S(".."), S(".name"), S("name."), S("nowhere"), S("name.x"), S("next.next.name"), S("kids.cid"), S("alias.cid"), S("next"),
+                  S("Root."), S(".Root"), S("Root..name")>>
+PathSites(doc) == {p \in Sites(doc) : AtPath(doc, p).j = "str" /\ LET kp == KeyPath(doc, p) IN
+                                        \E i \in DOMAIN kp : i >= Len(kp) - 1 /\ kp[i] \in PathKeys}
+PathMutants(doc) == {[path |-> p, mut |-> 0] : p \in PathSites(doc)}
+                    \cup UNION {{[path |-> p, mut |-> n] : n \in {k \in DOMAIN PathAlphabet : PathAlphabet[k] # AtPath(doc, p)}} : p \in PathSites(doc)}
+
+(* ---- `if:` of an input: expressions of the expr language - statically boolean, statically not boolean, dynamically typed *)
+(* (index / member / conditional / nil), failing at compile time, failing at run time                                         *)
+IfExprs == <<"true", "false", "not true", "1 == 1", "1 < 2 and 2 < 3", "\"a\" in [\"a\"]", "len([1]) > 0", "semver(\"1.2.3\").Major > 0",
+             "sprintf(\"%d\", 1) == \"1\"", "1", "1.5", "\"yes\"", "nil", "[1, 2]", "{\"a\": 1}", "sprintf(\"%d\", 1)", "semver(\"1.2.3\")",
+             "[true][0]", "[1, \"yes\", true][0]", "[1, \"yes\", true][2]", "{\"enabled\": \"yes\"}.enabled", "{\"enabled\": true}.enabled",
+             "{\"a\": 1}.b", "{\"a\": {\"b\": true}}.a.b", "true ? 1 : false", "true ? true : 1", "1 == 1 ? nil : true", "nil ?? true", "nil ?? 1",
+             "[1][5]", "1 / 0 > 0", "1 % 0 == 0", "semver(\"x\").Major > 0", "semver(nil)", "int(\"x\") > 0", "unknownVariable", "unknownFunc()", "1 +", "(",
+             "", " ", "true &&", "true && nil", "nil == nil", "[] == nil", "map([1], # > 0)[0]", "filter([1, 2], # > 5)[0]", "first([])", "first([true])",
+             "toJSON(1)", "fromJSON(\"true\")", "fromJSON(\"1\")", "fromJSON(\"x\")", "let x = true; x", "true; false">>
+IfDoc(e) == O(<<
+  P("inputs", A(<<O(<<P("if", S(IfExprs[e])), P("jsonschema", O(<<P("path", S("@JS@")), P("package", S("cfgt"))>>))>>)>>)),
+  P("output", O(<<P("directory", S("out")), Flag("types", TRUE), P("languages", A(<<O(<<P("go", O(<<P("package_root", S("genmod/out"))>>))>>)>>))>>))>>)
+
+(* ---- unions of references to structs and what could discriminate them: a constant field of every scalar kind, shared by all / *)
+(* some / no branches, with distinct or conflicting values, one or two candidate fields; rendered in every input language        *)
+DiscKinds    == <<"string", "int", "float", "bool", "mixed">>
+DiscSharing  == <<"all-distinct", "all-same-value", "first-only", "different-names", "two-candidates", "none">>
+DiscPlaces   == <<"field", "optional-field", "array", "map", "definition">>
+DiscLangs    == <<"cue", "jsonschema", "openapi">>
+
 (* ====================================================================== enumeration *)
 Bases(f) ==
   CASE f = "jsonschema" -> <<JsDoc(Defs(JsPre, FALSE)), JsDoc(CycleDefs(JsPre)), JsDoc(ExtraDefs(JsPre))>>
@@ -279,6 +383,14 @@ SeqCase(t, a, b) == [path |-> <<>>, mut |-> a, pos |-> b, t |-> t]
 Init == /\ fam \in Families
         /\ CASE fam = "cue" -> base = 1 /\ m \in {CueCase(e, p) : e \in DOMAIN CueExprs, p \in DOMAIN CuePositions}
              [] fam = "sequences" -> base = 1 /\ m \in {SeqCase(t, a, b) : t \in DOMAIN OptTargets, a \in 1..NOptRules, b \in 1..NOptRules}
+             [] fam = "cycles" -> base = 1 /\ m \in {[path |-> <<>>, mut |-> n, pos |-> k, t |-> e, lang |-> g] :
+                                                     n \in CycleLens, k \in DOMAIN CycleLinks, e \in DOMAIN CycleEntries, g \in DOMAIN CycleLangs}
+             [] fam = "veneerpaths" -> base \in DOMAIN VeneerBases /\ m \in PathMutants(VeneerBases[base])
+             [] fam = "ifexpr" -> base = 1 /\ m \in {[path |-> <<>>, mut |-> e] : e \in DOMAIN IfExprs}
+             [] fam = "discriminators" -> base = 1 /\ m \in {[path |-> <<>>, mut |-> k, pos |-> sh, t |-> pl, lang |-> g] :
+                                                     k \in DOMAIN DiscKinds, sh \in DOMAIN DiscSharing, pl \in DOMAIN DiscPlaces, g \in DOMAIN DiscLangs}
+             [] fam = "cyclepasses" -> base \in DOMAIN CyclePassDocs /\ m = AsIs
+             [] fam = "cycleveneers" -> base \in DOMAIN CycleVeneerDocs /\ m = AsIs
              [] fam = "parameters" -> base = 1 /\ m \in {SeqCase(u, pv, qv) : u \in DOMAIN ParamUses, pv \in DOMAIN ParamValues, qv \in DOMAIN ParamValues}
              [] OTHER -> base \in DOMAIN Bases(fam) /\ m \in ({AsIs} \cup Mutants(Bases(fam)[base], Alphabet(fam)))
 Next == UNCHANGED vars
@@ -286,7 +398,23 @@ Spec == Init /\ [][Next]_vars
 
 Doc == Bases(fam)[base]
 Emit ==
-  IF fam = "sequences"
+  IF fam = "veneerpaths"
+  THEN PrintT(<<"CASE", ToJson([fam |-> fam, base |-> base, class |-> IF m.mut = 0 THEN "absent" ELSE "path",
+                                keyword |-> Keyword(VeneerBases[base], m.path), path |-> KeyPath(VeneerBases[base], m.path), mut |-> m.mut,
+                                doc |-> IF m.mut = 0 THEN Remove(VeneerBases[base], m.path) ELSE Replace(VeneerBases[base], m.path, PathAlphabet[m.mut])])>>)
+  ELSE IF fam = "ifexpr"
+  THEN PrintT(<<"CASE", ToJson([fam |-> fam, base |-> base, class |-> "if-expression", keyword |-> "if", path |-> <<>>, mut |-> m.mut,
+                                expr |-> IfExprs[m.mut], doc |-> IfDoc(m.mut)])>>)
+  ELSE IF fam = "discriminators"
+  THEN PrintT(<<"CASE", ToJson([fam |-> fam, base |-> base, class |-> "discriminator", keyword |-> DiscSharing[m.pos], path |-> <<>>,
+                                kind |-> DiscKinds[m.mut], sharing |-> DiscSharing[m.pos], place |-> DiscPlaces[m.t], lang |-> DiscLangs[m.lang]])>>)
+  ELSE IF fam = "cycles"
+  THEN PrintT(<<"CASE", ToJson([fam |-> fam, base |-> base, class |-> "cycle", keyword |-> CycleLinks[m.pos], path |-> <<>>,
+                                n |-> m.mut, link |-> CycleLinks[m.pos], entry |-> CycleEntries[m.t], lang |-> CycleLangs[m.lang]])>>)
+  ELSE IF fam \in {"cyclepasses", "cycleveneers"}
+  THEN PrintT(<<"CASE", ToJson([fam |-> fam, base |-> base, class |-> "config-cycle", keyword |-> "", path |-> <<>>, mut |-> -1,
+                                doc |-> IF fam = "cyclepasses" THEN CyclePassDocs[base] ELSE CycleVeneerDocs[base]])>>)
+  ELSE IF fam = "sequences"
   THEN PrintT(<<"CASE", ToJson([fam |-> fam, base |-> base, class |-> "sequence", keyword |-> OptTargets[m.t], path |-> <<>>,
                                 mut |-> m.mut, second |-> m.pos, t |-> m.t, doc |-> SeqDoc(m.t, m.mut, m.pos)])>>)
   ELSE IF fam = "parameters"
